@@ -64,7 +64,7 @@ func (s *Server) referrerGet(repoStr, arg string) http.HandlerFunc {
 			if err != nil {
 				s.log.Info("paged referrers request for invalid cache digest", "cache", cacheDig, "repo", repoStr, "page", page)
 				w.WriteHeader(http.StatusBadRequest)
-				_ = types.ErrRespJSON(w, types.ErrInfoUnsupported("requested digest is not valid"))
+				_ = types.ErrRespJSON(w, types.ErrInfoDigestInvalid("requested digest is not valid"))
 				return
 			}
 			if cacheResp, err := s.referrerCache.Get(referrerKey{repo: repoStr, subject: arg, dig: dig, artifactType: filterAT}); err == nil && page < len(cacheResp) {
